@@ -19,6 +19,7 @@ void ABTD_futex_wait_and_unlock(ABTD_futex_multiple *p_futex,
 {
     const int original_val = ABTD_atomic_relaxed_load_int(&p_futex->val);
     ABTD_spinlock_release(p_lock);
+    ABTI_VERIF_POINT(ABTI_VERIF_P_FUTEX_WAIT_AFTER_UNLOCK);
     do {
         syscall(SYS_futex, &p_futex->val.val, FUTEX_WAIT_PRIVATE, original_val,
                 NULL, NULL, 0);
@@ -31,6 +32,7 @@ void ABTD_futex_timedwait_and_unlock(ABTD_futex_multiple *p_futex,
 {
     const int original_val = ABTD_atomic_relaxed_load_int(&p_futex->val);
     ABTD_spinlock_release(p_lock);
+    ABTI_VERIF_POINT(ABTI_VERIF_P_FUTEX_WAIT_AFTER_UNLOCK);
     struct timespec wait_time; /* This wait_time must be **relative**. */
     wait_time.tv_sec = (time_t)wait_time_sec;
     wait_time.tv_nsec =
